@@ -4,7 +4,7 @@ import "gmcheck/core"
 
 func init() {
 	Props["C09"] = PropDef{
-		Explanation: "R-RAWREAD: every direct Read([]byte) method call in the module is a forwarding Read wrapper or a one-byte read whose count is used; all other reads go through full-read primitives. R-ERRFLOW on nbt, nbt/dynbt, net/packet, net: the error of every call is looked at unless the callee writes to an in-memory sink, and on the err != nil edge of the plain failure idiom the function returns a non-nil error. R-NOBUF: no buffering reader / read-to-EOF (which cannot detect a short body) on the decode paths.",
+		Explanation: "R-RAWREAD who-may-call rule on Read([]byte) with count analysis; R-ERRFLOW E1-E4 + deferred completion; R-NOBUF. Decided: Every direct Read is a forwarding wrapper or a one-byte read whose count decides; all other reads go through full-read primitives, whose EOF is never forgiven; no error is dropped, tested after its sibling value was used, or lost in a deferred flush; no buffering reader sits on a decode path.",
 		Run: func(c *Ctx) []core.Ob {
 			var obs []core.Ob
 			obs = append(obs, c.RawRead()...)
